@@ -729,16 +729,96 @@ pub fn window_states<Q: Qx>(thorough: bool) -> Vec<CellDef> {
         }
     };
     let desc = format!("window lattice: {}-bit head (all values) at every one of {} bit positions x low fill {{0s, 1s}} x sign", hb, npos);
+    let mut v = state_cells::<Q>("window lattice", len, desc, mk);
+    // unstructured multi-limb states: for every bit length L < W-1, `per` values whose L bits come from a fixed LCG
+    // sequence (top bit set), both signs
+    let per: u64 = if thorough { 8192 } else { 1024 };
+    let ulen = (w as u64 - 2) * per * 2;
+    let umk = move |i: u64| -> W512 {
+        let sgn = i & 1;
+        let r = i >> 1;
+        let (l, j) = (r / per + 1, r % per); // bit length 1..=w-2
+        let mut st: u64 = 0x2545_F491_4F6C_DD1D ^ (l << 32) ^ j.wrapping_mul(0x9E37_79B9_7F4A_7C15);
+        let mut limbs = [0u64; 8];
+        for x in limbs.iter_mut() {
+            st = st.wrapping_mul(6364136223846793005).wrapping_add(1442695040888963407);
+            *x = st ^ (st >> 29);
+            st = st.wrapping_mul(6364136223846793005).wrapping_add(1442695040888963407);
+            *x ^= st << 32;
+        }
+        // keep exactly l bits
+        let top = (l - 1) as usize;
+        for (k, x) in limbs.iter_mut().enumerate() {
+            if k > top / 64 {
+                *x = 0;
+            } else if k == top / 64 {
+                let keep = top % 64 + 1;
+                if keep < 64 {
+                    *x &= (1u64 << keep) - 1;
+                }
+                *x |= 1u64 << (top % 64);
+            }
+        }
+        let v = W512(limbs);
+        if sgn == 1 {
+            v.neg()
+        } else {
+            v
+        }
+    };
+    v.extend(state_cells::<Q>("unstructured states", ulen, format!("for every bit length 1..={} x {} fixed pseudo-random fills x sign", w - 2, per), umk.clone()));
+    // one step from the unstructured states
+    let n = <Q::P as Fx>::N;
+    let al: Vec<u32> = match n {
+        8 => thin(&alphabet(8, 0, false), 4),
+        16 => thin(&alphabet(16, 1, false), if thorough { 6 } else { 24 }),
+        _ => thin(&alphabet(32, 2, false), if thorough { 24 } else { 96 }),
+    };
+    let na = al.len() as u64;
+    let per_p: u64 = if thorough { 512 } else { 32 };
+    v.push(CellDef::new(
+        "C04",
+        format!("{}/product(unstructured states)", Q::NAME),
+        Space::func((w as u64 - 2) * per_p * 2 * na * na * 2, format!("unstructured states ({} per bit length) x alphabet^2 ({} operands) x {{+=,-=}}", per_p, na), move |i| i as u128),
+        move |k| {
+            let i = k as u64;
+            let plus = i & 1 == 1;
+            let j = i >> 1;
+            let (si, a, b) = (j / (na * na), al[((j / na) % na) as usize], al[(j % na) as usize]);
+            let (sgn, r) = (si & 1, si >> 1);
+            let wv = umk((((r / per_p) * per + r % per_p) << 1) | sgn);
+            let before = decode_state::<Q>(&wv);
+            let after = m_add::<Q>(before, prod::<Q>(a, b), plus);
+            if after == M::Out {
+                return Out::skip();
+            }
+            let got = guard(|| {
+                let mut q = Q::from_w(&wv);
+                if plus {
+                    q.add_prod(p_of::<Q>(a), p_of::<Q>(b))
+                } else {
+                    q.sub_prod(p_of::<Q>(a), p_of::<Q>(b))
+                }
+                observe(&q)
+            });
+            Out::cmp(got, expect::<Q>(after), nontrivial::<Q>(before, after)).ops(5)
+        },
+    ));
+    v
+}
+
+fn state_cells<Q: Qx>(tag: &str, len: u64, desc: String, mk: impl Fn(u64) -> W512 + Send + Sync + Clone + 'static) -> Vec<CellDef> {
+    let mk2 = mk.clone();
     let mut v = vec![];
     let d1 = desc.clone();
-    v.push(CellDef::new("C04", format!("{}/observe(window lattice)", Q::NAME), Space::func(len, d1, |i| i as u128), move |k| {
+    v.push(CellDef::new("C04", format!("{}/observe({})", Q::NAME, tag), Space::func(len, d1, |i| i as u128), move |k| {
         let wv = mk(k as u64);
         let s = decode_state::<Q>(&wv);
         let got = guard(|| observe(&Q::from_w(&wv)));
         Out::cmp(got, expect::<Q>(s), round_state::<Q>(s).1).ops(4)
     }));
-    v.push(CellDef::new("C12", format!("{}/neg_clear_bits_split(window lattice)", Q::NAME), Space::func(len, desc, |i| i as u128), move |k| {
-        let wv = mk(k as u64);
+    v.push(CellDef::new("C12", format!("{}/neg_clear_bits_split({})", Q::NAME, tag), Space::func(len, desc, |i| i as u128), move |k| {
+        let wv = mk2(k as u64);
         let s = decode_state::<Q>(&wv);
         let negw = match s {
             M::Val(v) => v.neg(),
